@@ -72,5 +72,58 @@ pub fn run(w: &World, rng: &mut Rng, n: usize, trace: &mut Trace, sum: &mut Summ
         trace.emit(json!({"ev":"News","theirs":heads_json(&sorted),"ours":heads_json(&ours),"count":count}));
         sum.add("news_calls", 1);
     }
-    let _ = AuthorId::from(&[0u8; 32]);
+    // ---- large head sets (more than 127 authors: the length prefix of the encoding grows) with limits at exact
+    //      item boundaries; author ids are arbitrary 32-byte strings ranked by byte order
+    for round in 0..(n / 40).max(1) {
+        let count = *rng.pick(&[126usize, 127, 128, 129, 130, 200, 300]);
+        let mut ids: Vec<[u8; 32]> = (0..count).map(|_| rng.bytes32()).collect();
+        ids.sort();
+        ids.dedup();
+        let shared = *rng.pick(ts_pool);
+        let hs: Vec<(usize, u64)> = (0..ids.len())
+            .map(|i| (i + 1, if round % 2 == 0 && rng.chance(1, 2) { shared } else { *rng.pick(ts_pool) }))
+            .collect();
+        let mut heads = AuthorHeads::default();
+        for (i, t) in &hs {
+            heads.insert(AuthorId::from(&ids[i - 1]), *t);
+        }
+        let hj = Value::Array(hs.iter().map(|(a, t)| json!({"a": a, "ts": t})).collect());
+        // exact sizes of the k newest items, measured with postcard itself (not with iroh-docs code)
+        let mut items: Vec<(u64, [u8; 32])> = hs.iter().map(|(i, t)| (*t, ids[i - 1])).collect();
+        items.sort_by(|a, b| b.cmp(a));
+        let size_of = |k: usize| postcard::to_stdvec(&items[..k].to_vec()).unwrap().len() as i64;
+        let mut limits: Vec<i64> = vec![-1];
+        for k in [1usize, 2, 126, 127, 128, 129, items.len() - 1, items.len()] {
+            if k <= items.len() {
+                let s = size_of(k);
+                limits.extend([s - 1, s, s + 1]);
+            }
+        }
+        for _ in 0..4 {
+            limits.push(size_of(1 + rng.below(items.len())));
+        }
+        for limit in limits {
+            if limit < 1 && limit != -1 {
+                continue;
+            }
+            let res = std::panic::catch_unwind(std::panic::AssertUnwindSafe(|| {
+                heads.encode(if limit < 0 { None } else { Some(limit as usize) })
+            }));
+            let proj_big = |d: &AuthorHeads| -> Value {
+                let mut v: Vec<(usize, u64)> = d.iter().map(|(a, t)| (ids.binary_search(&a.to_bytes()).map(|i| i + 1).unwrap_or(0), *t)).collect();
+                v.sort();
+                Value::Array(v.iter().map(|(a, t)| json!({"a": a, "ts": t})).collect())
+            };
+            let ev = match res {
+                Err(_) => json!({"ev":"Encode","heads":hj,"limit":limit,"res":"PANIC","enclen":0,"decoded":[]}),
+                Ok(Err(_)) => json!({"ev":"Encode","heads":hj,"limit":limit,"res":"err","enclen":0,"decoded":[]}),
+                Ok(Ok(bytes)) => match AuthorHeads::decode(&bytes) {
+                    Ok(d) => json!({"ev":"Encode","heads":hj,"limit":limit,"res":"ok","enclen":bytes.len(),"decoded":proj_big(&d)}),
+                    Err(_) => json!({"ev":"Encode","heads":hj,"limit":limit,"res":"decode-err","enclen":bytes.len(),"decoded":[]}),
+                },
+            };
+            trace.emit(ev);
+            sum.add("encode_calls", 1);
+        }
+    }
 }
